@@ -10,6 +10,7 @@ import (
 	"sort"
 	"strconv"
 	"strings"
+	"sync"
 	"time"
 
 	"verif/sim/rng"
@@ -385,23 +386,45 @@ func CheckMain(args []string) int {
 	agg := &statsJSON{Ops: map[string]int{}, Probes: map[string]int{}, Checks: map[string]int{}, Fired: map[string]int{}}
 	hashes := map[uint64]struct{}{}
 	states := map[uint64]struct{}{}
+	// workers that died: did the run they were executing kill them? The first few
+	// are investigated (concurrently: a blocked call takes the hang limit to show)
+	type inquest struct {
+		rf  *RunFile
+		why string
+	}
+	inquests := map[int]*inquest{}
+	var iwg sync.WaitGroup
+	for i, p := range procs {
+		if _, err := os.Stat(p.out); err != nil && len(inquests) < 3 {
+			q := &inquest{}
+			inquests[i] = q
+			iwg.Add(1)
+			go func(out string) {
+				defer iwg.Done()
+				q.rf, q.why = investigateDeath(prop, *tier, *seed, out, scratch)
+			}(p.out)
+		}
+	}
+	iwg.Wait()
 	for i, p := range procs {
 		p.log.Close()
 		b, err := os.ReadFile(p.out)
 		if err != nil {
-			// the worker process died: did the run it was executing kill it?
-			lb, _ := os.ReadFile(p.log.Name())
-			rf, why := investigateDeath(prop, *tier, *seed, p.out, scratch)
-			if rf == nil {
-				fmt.Fprintf(os.Stderr, "worker %d produced no result (harness trouble: %s):\n%s\n", i, why, tail(string(lb), 3000))
+			total.Extra["workers_lost_to_process_death"]++
+			q := inquests[i]
+			if q == nil {
+				continue // more dead workers than inquests: the first ones speak for them
+			}
+			if q.rf == nil {
+				lb, _ := os.ReadFile(p.log.Name())
+				fmt.Fprintf(os.Stderr, "worker %d produced no result (harness trouble: %s):\n%s\n", i, q.why, tail(string(lb), 3000))
 				return 2
 			}
-			total.Extra["workers_lost_to_process_death"]++
-			if rf.Violation.HasProp(prop) {
-				total.ViolCount[violKey(rf.Violation)]++
-				total.Violations = append(total.Violations, rf)
+			if q.rf.Violation.HasProp(prop) {
+				total.ViolCount[violKey(q.rf.Violation)]++
+				total.Violations = append(total.Violations, q.rf)
 			} else {
-				total.Collateral[rf.Violation.Rule]++
+				total.Collateral[q.rf.Violation.Rule]++
 			}
 			continue
 		}
